@@ -33,14 +33,14 @@ func (g *vfGen) runMore10(slice string) bool {
 
 func (g *vfGen) label() string {
 	fixed := []string{"utf-8", "UTF-8", "ISO-8859-1", "windows-1252", "Shift_JIS", "EUC-KR", "koi8-r", "utf-16", "UTF-16LE", "utf-16be", "us-ascii", "x-user-defined", "GBK", "big5", "IBM866"}
-	if g.rng.Intn(2) == 0 {
-		return fixed[g.rng.Intn(len(fixed))]
+	if g.intn(2) == 0 {
+		return fixed[g.intn(len(fixed))]
 	}
 	const tok = "abcdefghijklmnopqrstuvwxyzABCDEFGHIJKLMNOPQRSTUVWXYZ0123456789-_.:+!#$^`|~"
-	n := 1 + g.rng.Intn(20)
+	n := 1 + g.intn(20)
 	b := make([]byte, n)
 	for i := range b {
-		b[i] = tok[g.rng.Intn(len(tok))]
+		b[i] = tok[g.intn(len(tok))]
 	}
 	return string(b)
 }
@@ -48,7 +48,7 @@ func (g *vfGen) label() string {
 func vfCase(g *vfGen, s string) string {
 	b := []byte(s)
 	for i := range b {
-		if g.rng.Intn(2) == 0 && b[i] >= 'a' && b[i] <= 'z' {
+		if g.intn(2) == 0 && b[i] >= 'a' && b[i] <= 'z' {
 			b[i] -= 32
 		}
 	}
@@ -62,18 +62,18 @@ func (g *vfGen) genC12() {
 	n := g.pick(1500, 40000)
 	for i := 0; i < n; i++ {
 		l := g.label()
-		p := pro[g.rng.Intn(len(pro))]
+		p := pro[g.intn(len(pro))]
 		if !strings.Contains(strings.ToLower(p), "<html") && !strings.Contains(strings.ToLower(p), "<!doctype html") {
 			p = "<html>" + p
 		}
 		sp := []string{"", " ", "  ", "\n", "\t"}
-		ws := func() string { return sp[g.rng.Intn(len(sp))] }
-		q := []string{"\"", "'", ""}[g.rng.Intn(3)]
+		ws := func() string { return sp[g.intn(len(sp))] }
+		q := []string{"\"", "'", ""}[g.intn(3)]
 		var decl, kind string
-		switch g.rng.Intn(5) {
+		switch g.intn(5) {
 		case 0, 1:
 			kind = "meta"
-			decl = fmt.Sprintf("<%s %s=%s%s%s%s>", vfCase(g, "meta"), vfCase(g, "charset"), q, l, q, []string{"", " /", "/"}[g.rng.Intn(3)])
+			decl = fmt.Sprintf("<%s %s=%s%s%s%s>", vfCase(g, "meta"), vfCase(g, "charset"), q, l, q, []string{"", " /", "/"}[g.intn(3)])
 			if q == "" && strings.HasSuffix(decl, "/>") && !strings.HasSuffix(decl, " />") {
 				decl = fmt.Sprintf("<meta charset=%s >", l)
 			}
@@ -89,7 +89,7 @@ func (g *vfGen) genC12() {
 		}
 		if i%9 == 0 {
 			// a long prologue: the declaration sits beyond byte 1024 but inside the default limit
-			p = "<html><!-- " + strings.Repeat("long comment ", 70+g.rng.Intn(60)) + "--><script>var s='<meta charset=fake4>';" + strings.Repeat("x=1;", 40) + "</script>"
+			p = "<html><!-- " + strings.Repeat("long comment ", 70+g.intn(60)) + "--><script>var s='<meta charset=fake4>';" + strings.Repeat("x=1;", 40) + "</script>"
 		}
 		doc := p + decl + "</head><body>caf\xe9 text</body></html>"
 		g.emit(vfOp("decl", kind, []byte(l), []byte(doc), 0))
@@ -99,12 +99,12 @@ func (g *vfGen) genC12() {
 			g.emit(vfOp("decl", kind, []byte(l), append([]byte{0xEF, 0xBB, 0xBF}, doc...), 0))
 		}
 		// XML
-		qx := []string{"\"", "'"}[g.rng.Intn(2)]
-		sa := []string{"", " standalone=\"yes\"", " standalone='no'"}[g.rng.Intn(3)]
+		qx := []string{"\"", "'"}[g.intn(2)]
+		sa := []string{"", " standalone=\"yes\"", " standalone='no'"}[g.intn(3)]
 		// XML 1.0 allows any white space (S = #x20 | #x9 | #xD | #xA) between the pseudo-attributes
-		sep := []string{" ", " ", "\t", "\n", "\r\n", "  ", "\n  ", " \t"}[g.rng.Intn(8)]
+		sep := []string{" ", " ", "\t", "\n", "\r\n", "  ", "\n  ", " \t"}[g.intn(8)]
 		xd := fmt.Sprintf("<?xml version=%s1.0%s%sencoding=%s%s%s%s?>", qx, qx, sep, qx, l, qx, sa)
-		lead := []string{"", "\n", "  ", "\r\n\t"}[g.rng.Intn(4)]
+		lead := []string{"", "\n", "  ", "\r\n\t"}[g.intn(4)]
 		xdoc := lead + xd + "\n<root><a>caf\xe9</a></root>"
 		g.emit(vfOp("decl", "xml", []byte(l), []byte(xdoc), 0))
 		g.emit(vfOp("cs", "xml", []byte(xdoc)))
@@ -146,7 +146,7 @@ func (g *vfGen) genC12() {
 		l := g.label()
 		forms := []string{"text/html; charset=" + l, "charset = \"" + l + "\"", "charsetx; charset=" + l + " ;", "charset", "charset=", "charset='" + l, "a charset b charset=" + l,
 			"version=\"1.0\" encoding=\"" + l + "\"", "encoding='" + l + "'", "encoding=" + l, "encoding=\"" + l, "xencoding='" + l + "' encoding=\"z\""}
-		f := forms[g.rng.Intn(len(forms))]
+		f := forms[g.intn(len(forms))]
 		g.emit(vfOp("meta", []byte(f)))
 		g.emit(vfOp("xmlenc", []byte(f)))
 	}
